@@ -172,3 +172,6 @@ def run(ctx):
     if not found:
         ctx.ob("R-ENUM", cc, "stack reads K_i for every i", None, "construction not recognised", required=False)
     r_effect_free(ctx, cc, ["kraus_ops"])
+    from ..rules import r_dtype_buffer
+    ctx.rule("R-DTYPE", "no result buffer typed after one Kraus operator receives the others (silent dtype narrowing)")
+    r_dtype_buffer(ctx, cc, "kraus_ops")
